@@ -271,7 +271,12 @@ static void reentrant_action()
 extern "C" void harness()
 {
 	g = new G();
+#ifdef HAVOC
+	void * raw = malloc(sizeof(Q)); vf_havoc(raw, sizeof(Q));
+	g->q = new (raw) Q;
+#else
 	g->q = new Q();
+#endif
 	g->budget = RA; g->seq = 1; g->nextlid = 100;
 	Model & m = g->m;
 	for(int k = 0; k < 2; k++) {
@@ -344,7 +349,11 @@ extern "C" void harness()
 #endif
 	}
 	for(int i = 0; i < MAXH; i++) g->hs[i] = Q::Handle();
+#ifdef HAVOC
+	g->q->~Q(); free(raw);
+#else
 	delete g->q;
+#endif
 #if PAYLOAD != 0
 	vf_assert(g_live_pay == 0, 96);                   // queue destruction releases the arguments of pending events
 	vf_assert(g_bad == 0, 97);
